@@ -17,7 +17,8 @@ CLAIMED = {
              "source semantics (the control part of the interpreter) runs it to its end, the flow graph it is lowered to "
              "produces the same trace (any nesting, any number of jumps and iterations); tied at both ends on every run: the "
              "trace real skeleton programs print = the source semantics, and the real IR's basic blocks are bisimilar to the "
-             "lowered graph. Structure/word literals are checked against a Python oracle. Partial: evaluation order of "
+             "lowered graph; `CF.scoper_accepted_never_stuck`: a body the label-scoper model (C04) accepts never ends a run with a "
+             "pending jump. Structure/word literals are checked against a Python oracle. Partial: evaluation order of "
              "expressions and address computation are not theorems.",
         note="Trusted: Lean kernel, the interpreter as the formalisation of the documented semantics (its operator layer is what "
              "the theorems speak about), the program generator's two renderings (source / S-expression), lli 14 as executor.",
